@@ -615,9 +615,14 @@ impl<'a> Run<'a> {
 		};
 		// diff fails exactly when the namespaces differ or a second-namespace name is missing
 		let should = a.ns == b.ns && named(a) && named(b);
-		if d.is_some() != should {
-			self.r.violation(format!("diff returned {} but namespaces equal = {}, all entries named in A = {}, in B = {}", if d.is_some() { "Ok" } else { "Err" }, a.ns == b.ns, named(a), named(b)), replay(""));
+		// (round 5) The property asks for a diff of ANY two sets over the same namespaces; the code refuses the pairs with an
+		// entry that lacks its second-namespace name (stated narrowing, C04_diff_ok_iff).  A refusal INSIDE that domain is a
+		// violation.  A diff that is returned OUTSIDE it is not by itself one (a more general diff would be an improvement): it is
+		// judged like every other diff, by the inverse law below - what comes out of apply(diff(A,B),A) must be B.
+		if d.is_none() && should {
+			self.r.violation("diff refused two mapping sets over the same namespaces in which every entry has a second-namespace name".into(), replay(""));
 		}
+		if d.is_some() && !should { self.r.count("diff_ok_outside_the_modelled_domain(judged_by_the_inverse_law)"); }
 		let Some(d) = d else { self.r.count("diff_err"); emit_pair(self.r, None, None); return None; };
 		self.r.count("diff_ok");
 		// C04_diff_exact says what the model's diff contains (the union of the keys at every level, Edit on both sides, Remove / Add
@@ -777,7 +782,7 @@ pub fn run(ctx: &Ctx) -> anyhow::Result<Report> {
 	// 0. apply_diff_option: the full 4 x 3 table
 	for d in [Act::None, Act::Add(cps_str("b")), Act::Rem(cps_str("a")), Act::Edit(cps_str("a"), cps_str("b")), Act::Edit(cps_str("a"), cps_str("a")), Act::Add(vec![]),
 		Act::Add(cps_str(" ")), Act::Rem(cps_str(" ")), Act::Edit(cps_str(" "), cps_str("b")), Act::Edit(cps_str("a"), cps_str(" ")), Act::Rem(vec![]), Act::Edit(vec![], cps_str(" "))] {
-		for t in [None, Some(cps_str("a")), Some(cps_str("x")), Some(vec![]), Some(cps_str(" "))] {
+		for t in [None, Some(cps_str("a")), Some(cps_str("x")), Some(vec![]), Some(cps_str(" ")), Some(cps_str("b"))] {
 			let qd = act_str(&d).unwrap(); let qt = t.as_ref().map(|s| s_string(s).unwrap());
 			let got = guarded(move || quill::apply_diff_option(&qd, qt).ok());
 			match got {
@@ -795,7 +800,9 @@ pub fn run(ctx: &Ctx) -> anyhow::Result<Report> {
 	// 1. the table on single-entry trees
 	// Edit(a,a) is what diff() emits for every entry kept on both sides: its old-value check is as binding as a real edit's
 	let acts = [Act::None, Act::Add(cps_str("b")), Act::Rem(cps_str("a")), Act::Edit(cps_str("a"), cps_str("b")), Act::Edit(cps_str("a"), cps_str("a"))];
-	let states: [Option<Option<&str>>; 4] = [None, Some(None), Some(Some("a")), Some(Some("x"))];
+	// (round 5) "b": the target already holds the NEW value of the action (an addition that collides with an equal value, an
+	// edit or removal that was applied before) - as inconsistent as any other mismatch
+	let states: [Option<Option<&str>>; 5] = [None, Some(None), Some(Some("a")), Some(Some("x")), Some(Some("b"))];
 	let mut table = 0u64;
 	for level in 0..4 {
 		for act in &acts {
@@ -820,7 +827,9 @@ pub fn run(ctx: &Ctx) -> anyhow::Result<Report> {
 					}
 					let t = one_entry_target(ts[0], ts[1], ts[2], ts[3], [None; 5]);
 					let d = one_entry_diff(ds, [Act::None, Act::None, Act::None, Act::None, Act::None]);
-					run.apply_case("table", &d, &t, &named_ns, true);
+					let got = run.apply_case("table", &d, &t, &named_ns, true);
+					// two-step sequence: the same diff once more, on what the first application returned
+					if let Some(r1) = got { run.apply_case("table-twice", &d, &r1, &named_ns, true); table += 1; }
 					table += 1;
 				}
 			}
@@ -830,12 +839,13 @@ pub fn run(ctx: &Ctx) -> anyhow::Result<Report> {
 		Act::Add(cps_str(" ")), Act::Rem(cps_str(" ")), Act::Edit(cps_str(" "), cps_str("b")), Act::Edit(cps_str("a"), cps_str(" ")), Act::Edit(cps_str(" "), cps_str(" ")), Act::Edit(cps_str(" "), cps_str("  "))];
 	for level in 0..5 {
 		for act in &dacts {
-			for st in [None, Some("a"), Some("x"), Some(""), Some(" "), Some("  ")] {
+			for st in [None, Some("a"), Some("x"), Some(""), Some(" "), Some("  "), Some("b")] {
 				let mut tdocs = [None; 5]; tdocs[level] = st;
 				let mut ddocs = [Act::None, Act::None, Act::None, Act::None, Act::None]; ddocs[level] = act.clone();
 				let t = one_entry_target(Some(Some("pc")), Some(Some("pf")), Some(Some("pm")), Some(Some("pp")), tdocs);
 				let d = one_entry_diff([Some(Act::None), Some(Act::None), Some(Act::None), Some(Act::None)], ddocs);
-				run.apply_case("table-comment", &d, &t, &named_ns, true);
+				let got = run.apply_case("table-comment", &d, &t, &named_ns, true);
+				if let Some(r1) = got { run.apply_case("table-comment-twice", &d, &r1, &named_ns, true); table += 1; }
 				// the same comment action through print / read_file (the mappings-level one has no text form)
 				if level > 0 && st.is_none() { run.print_case("table-comment-text", &d); }
 				table += 1;
@@ -989,6 +999,27 @@ pub fn run(ctx: &Ctx) -> anyhow::Result<Report> {
 			}
 		}
 		run.r.count_n("blank_pairs", n);
+		// (round 5) presence of the second-namespace NAME, exhaustively on single-path trees: at each of the four levels the
+		// entry is absent / present without a name / named "x" / named "y" on side A and on side B (everything above it present
+		// and named).  diff must either refuse the pair or return a diff whose application to A gives B.
+		{
+			let states: [Option<Option<&str>>; 4] = [None, Some(None), Some(Some("x")), Some(Some("y"))];
+			let mut n = 0u64;
+			for level in 0..4 {
+				for sa in states { for sb in states {
+					let mut na = [Some(Some("pc")), Some(Some("pf")), Some(Some("pm")), Some(Some("pp"))]; na[level] = sa;
+					let mut nb = na; nb[level] = sb;
+					// below an absent class / method there is nothing
+					if level == 0 { if sa.is_none() { na = [None; 4]; } if sb.is_none() { nb = [None; 4]; } }
+					if level == 2 { if sa.is_none() { na[3] = None; } if sb.is_none() { nb[3] = None; } }
+					let a = one_entry_target(na[0], na[1], na[2], na[3], [None; 5]);
+					let b = one_entry_target(nb[0], nb[1], nb[2], nb[3], [None; 5]);
+					run.pair_case("pair-name-presence", &a, &b, true);
+					n += 1;
+				} }
+			}
+			run.r.count_n("name_presence_pairs", n);
+		}
 		let mut n = 0u64;
 		let none5 = || [Act::None, Act::None, Act::None, Act::None, Act::None];
 		let some4 = || [Some(Act::None), Some(Act::None), Some(Act::None), Some(Act::None)];
@@ -1173,6 +1204,9 @@ pub fn run(ctx: &Ctx) -> anyhow::Result<Report> {
 		}
 		let nsname = t.ns[tns].clone();
 		let got = run.apply_case(stream, &d, &t, &nsname, true);
+		// (round 5) two-step sequence: the same diff once more on what the first application returned - every addition now
+		// collides with an equal value, every edit finds its new value, every removal finds nothing
+		if let (Some(r1), true) = (&got, i % 3 == 0) { run.apply_case("arbitrary-twice", &d, r1, &nsname, true); }
 		// untouched entries: a class the diff does not mention is identical afterwards (checked by the reference as well)
 		if let Some(got) = &got {
 			for c in &t.classes {
